@@ -118,7 +118,14 @@ class PairChecker:
         self.dump_fail = 0
         self.known = []  # (p_leafs, c_leafs, signature) of violations found on smaller pairs
 
-    def _sig(self, p_ts, c_ts):
+    def _sig(self, p_ts, c_ts, exc=None):
+        from pydantic import ValidationError
+
+        # the parent does not reject with a validation error but crashes inside a custom parser: one finding per
+        # parser type (PintParser only translates UndefinedUnitError)
+        if exc is not None and not isinstance(exc, ValidationError):
+            culprit = sorted(set(sl.tleaves(p_ts)) - set(sl.tleaves(c_ts))) or sorted(set(sl.tleaves(p_ts)))
+            return "c13:check-accepts-unsound-override:parent-parser-crash:" + ",".join(culprit)
         # all Annotated[..., Field(constraints)] cases are ONE finding (is_subtype ignores the annotation metadata)
         kinds = _field_kinds(p_ts) | _field_kinds(c_ts)
         if kinds:
@@ -179,7 +186,7 @@ class PairChecker:
                         P.parse_raw(j) if how.startswith("parse_raw") else P.parse_obj(json.loads(j))
                     rec.check(True, "", "")
                 except Exception as e:
-                    rec.check(False, self._sig(p_ts, c_ts),
+                    rec.check(False, self._sig(p_ts, c_ts, e),
                               f"plugin check accepts `class C(P): f: {sl.tstr(c_ts)}` over `P.f: {sl.tstr(p_ts)}` without declared override, but C accepts "
                               f"f={sl.short(repr(v), 60)} (json {sl.short(j, 60)}) and P.{how} rejects it: {type(e).__name__}: {sl.short(str(e).replace(chr(10), ' | '), 140)}",
                               case=case, fns=FNS_CHECK + FNS_TYPES)  # fmt: skip
@@ -269,7 +276,7 @@ GENERATED_CHILDREN = [
 # --------------------------------------------------------------------------------------------------
 # type lists
 
-ATOMS_Q = ["Bool", "Int", "Float", "Str", "int", "str", "NonEmptyStr", "HashsumStr", "QualHashsumStr", "MimeTypeStr", "Duration", "Score",
+ATOMS_Q = ["Bool", "Int", "Float", "Str", "int", "str", "NonEmptyStr", "HashsumStr", "QualHashsumStr", "MimeTypeStr", "Duration", "PintUnit", "Score",
            "LowScore", "Digit", ["Literal", "a"], ["Literal", "a", "b"], ["Schema", "Leaf"], ["Schema", "LeafKid"], ["Schema", "Other"]]  # fmt: skip
 ATOMS_R = ["Bool", "Int", "Float", "Str", "NonEmptyStr", "HashsumStr", "QualHashsumStr", "Duration", ["Schema", "Leaf"], ["Schema", "LeafKid"]]
 
@@ -291,7 +298,7 @@ def types_quick():
         if sl._hashable_atom(a):
             ts.append(["Set", a])
     ts += [["Union", "Int", "Str"], ["Union", "Bool", "Int", "Float", "Str"], ["Union", "Int", "Float"], ["Union", "Duration", "Str"],
-           ["Union", ["Schema", "LeafKid"], ["Schema", "Other"]], ["Union", "HashsumStr", "Int"], ["Optional", ["Union", "Int", "Str"]],
+           ["Union", "PintUnit", "Str"], ["Union", ["Schema", "LeafKid"], ["Schema", "Other"]], ["Union", "HashsumStr", "Int"], ["Optional", ["Union", "Int", "Str"]],
            ["Optional", ["List", "Int"]], ["List", ["Union", "Int", "Str"]], ["Optional", ["Set", "Str"]]]  # fmt: skip
     return _uniq(ts)
 
